@@ -161,7 +161,13 @@ impl std::fmt::Display for LicenseParagraph {
 }
 
 fn deserialize_copyrights(text: &str) -> Result<Vec<String>, String> {
-    Ok(text.split('\n').map(ToString::to_string).collect())
+    // one statement per line; an empty line is not a statement (an empty list is written as the empty value, and a
+    // value that begins on the line after the field name has an empty first line)
+    Ok(text
+        .split('\n')
+        .filter(|s| !s.is_empty())
+        .map(ToString::to_string)
+        .collect())
 }
 
 fn serialize_copyrights(copyrights: &[String]) -> String {
